@@ -227,7 +227,48 @@ class Interp:
         return self.fails
 
 
+def check_segments(case):
+    """Chunks that coincide with the structure of the stream: each segment of a stream built by the C06 grammar (whole
+    message, message cut short, stray bytes, lone F7) is handed over as one chunk, in the container given. The result
+    must equal the single-call parse of the same bytes AND what the construction says the stream holds."""
+    from checks import c06_resync as C06
+    built = C06.build_grammar(case['segs'])
+    if built is None:
+        return []
+    data, want_d, bounds = built
+    want = [C06.mk(d) for d in want_d]
+    conts = case.get('conts', ['bytes'])
+    out = []
+    for target in ('parser', 'queue'):
+        try:
+            p = mido.Parser() if target == 'parser' else ParserQueue()
+            lo = 0
+            got = []
+            for i, hi in enumerate(bounds):
+                chunk = _as(conts[i % len(conts)], data[lo:hi])
+                (p.feed if target == 'parser' else p.put_bytes)(chunk)
+                lo = hi
+                if case.get('drain_between'):
+                    got.extend(list(p) if target == 'parser' else list(p.iterpoll()))
+            got.extend(list(p) if target == 'parser' else list(p.iterpoll()))
+            whole = mido.parse_all(list(data))
+        except Exception as exc:  # noqa: BLE001
+            out.append(fail('raises', f'segments {case["segs"]}: {exc!r}', exc=exc_sig(exc)))
+            continue
+        if len(got) != len(whole) or any(not (a == b) for a, b in zip(got, whole)):
+            out.append(fail('chunk-dependent', f'segments {case["segs"]} fed one chunk per segment ({conts}) to a {target}: '
+                                               f'{got!r}; fed at once: {whole!r}'[:900], target=target))
+        elif len(got) != len(want) or any(not (a == b) for a, b in zip(got, want)):
+            out.append(fail('total', f'segments {case["segs"]}: {got!r}, by construction the stream holds {want!r}'[:900],
+                            target=target))
+    return out
+
+
 def run_case(case):
+    if case.get('kind') == 'segments':
+        LAST_TAGS.clear()
+        LAST_TAGS.add('chunk-per-segment')
+        return check_segments(case)
     if case.get('kind') == 'sched':
         # ParserQueue fed by two threads under the deterministic scheduler (machinery of C10): the queue must hand
         # messages out in the order the parser produced them, whatever the interleaving of the put_bytes calls
@@ -247,6 +288,8 @@ def run_case(case):
 
 
 def nontrivial(case):
+    if case.get('kind') == 'segments':
+        return any(s[0] == 'cut' for s in case['segs'])
     if case.get('kind') == 'sched':
         return bool(case.get('sched'))
     it = Interp(case['data'], case.get('target', 'parser'))
@@ -429,7 +472,37 @@ def huge_cases():
     yield {'data': sx, 'msgs': smsgs, 'ops': [['feed', 66000, 'bytes'], ['feed', 1, 'list'], ['pending']], 'target': 'queue'}
 
 
+def segments_shard(rec, shard):
+    from checks import c06_resync as C06
+    t, = shard
+    final = R.default_msg('note_on', note=77, velocity=3)
+    tails = ([], [['stray', [5]]], [['eox']], [['stray', [2, 3]], ['eox']], [['stray', [3]], ['undef', 0xFD]])
+    for d0 in C06.two_settings(t):
+        enc = R.ref_encode(d0)
+        for k in range(1, len(enc)):
+            for t2 in R.ALL_TYPES:
+                d1 = C06.two_settings(t2)[0]
+                for tail in tails:
+                    segs = [['cut', d0, k], ['whole', d1]] + tail + [['whole', final]]
+                    if C06.build_grammar(segs) is None:
+                        continue
+                    for conts in (['bytes'], ['list'], ['tuple', 'bytearray']):
+                        rec.run_tagged({'kind': 'segments', 'segs': segs, 'conts': conts,
+                                        'drain_between': len(conts) == 2})
+
+
+def segments_hyp_shard(rec, shard):
+    from checks import c06_resync as C06
+    k, n = shard
+    strat = st.builds(lambda c, conts, dr: {'kind': 'segments', 'segs': c['segs'], 'conts': conts, 'drain_between': dr},
+                      C06.segment_lists(), st.lists(st.sampled_from(['bytes', 'list', 'tuple', 'bytearray']), min_size=1,
+                                                    max_size=3), st.booleans())
+    rec.hyp(strat, n, body=lambda case: rec.run_tagged(case), seed_offset=500 + k)
+
+
 def main(ctx):
+    ctx.pmap('segments_shard', [(t,) for t in R.ALL_TYPES if t not in R.REALTIME])
+    ctx.pmap('segments_hyp_shard', [(k, 250 if ctx.tier == 'quick' else 5000) for k in range(4)])
     for case in huge_cases():
         ctx.check(case, sample=False, classes=('volume',))
     for target in ('parser', 'queue'):
